@@ -163,6 +163,20 @@ theorem updates_postponed_xexit_eq (g : Graph V) (s : St V) (old : Bool) :
   unfold updates_postponed_xexit
   simp [updateIntermediateValues_eq, pure, Except.pure, bind, Except.bind, Prim.setSuspended]
 
+/-- **update_from_calculator_eq**: the translated `ParameterController.update_from_calculator` (the hand-back at the
+end of `optimise`: every leaf definition takes the calculator's value and is marked, then one propagation) is the hand
+model `fromCalc`; in particular EVERY leaf is marked, user parameter or not -/
+theorem update_from_calculator_eq (g : Graph V) (s : St V) (cv : Nat → V) :
+    update_from_calculator g s cv = .ok (fromCalc g s cv) := by
+  unfold update_from_calculator fromCalc
+  simp only []
+  rw [forIn_of_step (fcStep g cv)]
+  · simp only [pure, Except.pure, bind, Except.bind, foldl_fcStep, Prim.defns, update_intermediate_values_eq,
+      List.nil_append]
+  · intro k acc
+    unfold fcStep
+    by_cases hl : Prim.isLeaf g k = true <;> simp [hl, pure, Except.pure]
+
 /-- **gen_step_is_model**: each translated method is the hand model's transition: `assign_all` on a leaf is
 `Op.assign` (and raises ValueError before touching anything on a derived definition), the three parts of the
 `updates_postponed` generator are `Op.enter` / `Op.exit` / `Op.xexit` -/
@@ -182,6 +196,19 @@ theorem gen_step_is_model (g : Ctl.Graph V) (s : Ctl.St V) :
     cases s.stack with
     | nil => rfl
     | cons old rest => simp only []; rw [updates_postponed_xexit_eq]
+
+/-- **make_calculator_fresh**: whatever the state (blocks open, updates suspended, any dirty set), after
+`make_calculator()` has run `update()` over every definition, EVERY definition holds its rule applied to the current
+settings: the calculator is always built from freshly computed values, and reading lnL after it gives the
+recomputed value (the harness' oracle O0 relies on exactly this) -/
+theorem make_calculator_fresh (g : Ctl.Graph V) (hwf : Ctl.WF g) (s : Ctl.St V) :
+    ∀ k, k < g.length → LocalOK g (refreshAll g s) k := by
+  intro k hk
+  obtain ⟨a, b, _, _⟩ := updateLoop_spec g hwf (List.range g.length) { s with changed := List.range g.length }
+    List.pairwise_lt_range (fun x hx => by simpa using hx) (fun j hj hjn => absurd (by simpa using hj) hjn)
+    (fun j hj hjn => absurd (by simpa using hj) hjn)
+    (fun j hj hjc => absurd hj hjc)
+  exact (a k hk).congr rfl (fun _ _ => rfl) (by show s.setting k = _; rw [b])
 
 theorem genStep_inv (g : Ctl.Graph V) (hwf : Ctl.WF g) (s : Ctl.St V) (o : GOp V) (hI : Ctl.Inv g s) :
     match genStep g s o with
@@ -208,10 +235,27 @@ theorem genStep_inv (g : Ctl.Graph V) (hwf : Ctl.WF g) (s : Ctl.St V) (o : GOp V
     refine ⟨a, ?_, ?_⟩
     · rw [c, d]; exact hI.stack
     · intro h; rw [c] at h; exact b h
+  | makeCalc =>
+    show Ctl.Inv g (refreshAll g s)
+    exact ⟨fun j hj _ => make_calculator_fresh g hwf s j hj, hI.stack, hI.clean⟩
+  | fromCalc cv =>
+    show match update_from_calculator g s cv with | .ok s' => Ctl.Inv g s' | .error _ => True
+    rw [update_from_calculator_eq]
+    unfold fromCalc
+    have hJ0 : J g { s with setting := fun j => if (List.range g.length).contains j && Prim.isLeaf g j then cv j else s.setting j,
+                            changed := s.changed ++ (List.range g.length).filter (fun k => Prim.isLeaf g k) } := by
+      intro j hj hjc
+      simp only [List.mem_append, List.mem_filter, List.mem_range, not_or, not_and] at hjc
+      have hnl : ¬ Prim.isLeaf g j = true := hjc.2 hj
+      exact LocalOK.congr (hI.j j hj hjc.1) rfl (fun _ _ => rfl) (by simp [hnl])
+    obtain ⟨a, b, c, d, _⟩ := updateIntermediate_spec g hwf _ hJ0
+    refine ⟨a, ?_, ?_⟩
+    · rw [c, d]; exact hI.stack
+    · intro h; rw [c] at h; exact b h
 
 /-- **gen_controller_consistent**: after ANY history of operations executed by the TRANSLATED
 `ParameterController.assign_all` / `updates_postponed` (entered, left normally, left by an exception, nested) /
-`update_intermediate_values()` — including `assign_all` calls that raise because the definition is derived — whenever
+`update_intermediate_values()` / `make_calculator()` / `update_from_calculator(calc)` (any calculator values) — including `assign_all` calls that raise because the definition is derived — whenever
 no block is open nothing is suspended, nothing is marked dirty, every definition holds its rule applied to the current
 settings, and all values equal those of a NEWLY BUILT controller given the same settings -/
 theorem gen_controller_consistent (g : Ctl.Graph V) (hwf : Ctl.WF g) (setting : Nat → V) (hist : List (GOp V)) :
@@ -284,6 +328,19 @@ def exGG : Ctl.Graph Int :=
   [.leaf, .leaf, .derived [0, 1] (fun l => l.foldl (· + ·) 0), .derived [2, 0] (fun l => l.foldl (· * ·) 1)]
 def exGHist : List (GOp Int) :=
   [.enter, .assign 0 5, .xexit, .assign 2 9, .enter, .assign 1 7, .updateAll, .exit]
+/-- inside a block: an assignment, make_calculator() (values refreshed although suspended), the hand-back of a
+calculator at (4, 2) (nothing propagates yet), then the block ends -/
+def exGHist2 : List (GOp Int) := [.enter, .assign 0 3, .makeCalc, .fromCalc (fun k => if k = 0 then 4 else 2), .exit]
+example :
+    let s := genRun exGG (Ctl.init exGG (fun _ => 1)) (exGHist2.take 3)
+    s.suspended = true ∧ (List.range 4).map s.values = [3, 1, 4, 12] ∧ s.changed = [0] := by decide +kernel
+example :
+    let s := genRun exGG (Ctl.init exGG (fun _ => 1)) (exGHist2.take 4)
+    (List.range 4).map s.values = [3, 1, 4, 12] ∧ (List.range 4).map s.setting = [4, 2, 1, 1] ∧ s.changed = [0, 0, 1] := by
+  decide +kernel
+example :
+    let s := genRun exGG (Ctl.init exGG (fun _ => 1)) exGHist2
+    s.stack = [] ∧ (List.range 4).map s.values = [4, 2, 6, 24] ∧ s.changed = [] := by decide +kernel
 example : errOf (genStep exGG (genRun exGG (Ctl.init exGG (fun _ => 1)) (exGHist.take 3)) (.assign 2 9)) = some "ValueError" := by
   decide +kernel
 example :
